@@ -45,9 +45,13 @@ def configs(tier, seed):
                             continue
                         out.append({"basis": BASES.index(b), "types": list(tp), "dens": dens, "nuc": ni, "tr": tr})
     # the upper end of the point-count range (1-30 points): one family with 27 and 30 points
-    for npts in (27, 30, 1):
+    for npts in (27, 30, 1, 2, 3):
         for tr in TRANS:
             out.append({"basis": 2, "types": ["spherical", "cartesian"], "dens": "indef", "nuc": 2, "tr": tr, "npts": npts})
+    # thresholds EXACTLY equal to a point-nucleus distance (dyadic coordinates, Pythagorean displacements: the
+    # distance is exact in floating point whatever formula computes it): "below the threshold" is a strict inequality
+    for ni in (1, 2, 3):
+        out.append({"basis": 0, "types": ["cartesian"], "dens": "psd", "nuc": ni, "tr": TRANS[ni], "exact": 1})
     return out
 
 
@@ -78,8 +82,14 @@ def evaluate(cfg):
 
     o = Obs(cfg)
     shells, nuc, Z, pts = build(cfg)
-    if cfg.get("npts") == 1:
-        pts = pts[:1]
+    if cfg.get("npts") in (1, 2, 3):
+        pts = pts[:cfg["npts"]]
+    if cfg.get("exact"):
+        nuc[0] = [0.5, -0.25, 1.0]
+        nuc[1] = [-1.5, 0.75, 0.25]
+        pts[0] = nuc[0] + np.array([0.75, 1.0, 0.0])   # distance 1.25
+        pts[1] = nuc[1] + np.array([0.25, -0.5, 0.5])  # distance 0.75
+        shells = [s_.with_(center=tuple(nuc[0])) for s_ in shells]
     g = [gshell(s) for s in shells]
     n = nbasis(shells)
     V = coulomb.coulomb_matrix(shells, shells, pts)  # (n, n, P)
@@ -115,6 +125,8 @@ def evaluate(cfg):
     thrs += [float(dist.max() * 1.5)]
     if len(pts) > 8:
         thrs = thrs[::max(1, len(thrs) // 12)] + thrs[-1:]  # many points: an evenly spaced dozen of the bracketing thresholds
+    if cfg.get("exact"):
+        thrs = [t for d in (1.25, 0.75) for t in (d, float(np.nextafter(d, 0.0)), float(np.nextafter(d, 9.0)))]
     thrs = [0.0, 0] + thrs  # float and int zero (a point on a nucleus then gives an infinite potential)
     o.notes["max_thresholds"] = len(thrs)
     for thr in thrs:
